@@ -120,7 +120,7 @@ impl StateStore for CrashStore {
 
 // ------------------------------------------------------------------ case model
 
-const SOURCES: [&str; 7] = [
+const SOURCES: [&str; 9] = [
     "stream A = X\n    .emit(v: v)\n",
     "stream B = Y\n    .where(v > 1)\n    .emit(w: v)\n",
     "# ünïcode comment 日本\nstream C = X\n    .window(3)\n    .aggregate(c: count())\n    .emit(n: c)\n",
@@ -129,6 +129,9 @@ const SOURCES: [&str; 7] = [
     "var limit: int = 5\n\nstream F = X\n    .emit(s: \"q\\\"uote \\\\ é\")\n",
     // rejected by the parser: the operation must fail and leave no trace
     "stream = = nonsense (",
+    // accepted by the parser but refused by the engine at load/reload time: same requirement
+    "stream G = X\n    .order_by(v)\n    .emit(v: v)\n",
+    "stream H = X\n    .score(model: \"m.onnx\", inputs: [v], outputs: [s])\n    .emit(v: v)\n",
 ];
 const NAMES: [&str; 6] = ["p", "pipeline two", "ünï-çode ✓", "", "p", "a/b:c\"d"];
 const TENANT_NAMES: [&str; 4] = ["Acme Corp", "tenant é 日本", "", "x:y/z"];
@@ -619,9 +622,9 @@ fn op_strategy() -> impl Strategy<Value = Op> {
     prop_oneof![
         2 => (slot(), 0u8..4, 0u8..4).prop_map(|(slot, name, tier)| Op::CreateTenant { slot, name, tier }),
         1 => slot().prop_map(|slot| Op::DeleteTenant { slot }),
-        5 => (slot(), 0u8..6, prop_oneof![6 => 0u8..6, 1 => Just(6u8)]).prop_map(|(slot, name, source)| Op::Deploy { slot, name, source }),
+        5 => (slot(), 0u8..6, prop_oneof![6 => 0u8..6, 1 => Just(6u8), 1 => Just(7u8), 1 => Just(8u8)]).prop_map(|(slot, name, source)| Op::Deploy { slot, name, source }),
         3 => (slot(), 0u8..3).prop_map(|(slot, pick)| Op::DeletePipeline { slot, pick }),
-        3 => (slot(), 0u8..3, prop_oneof![6 => 0u8..6, 1 => Just(6u8)]).prop_map(|(slot, pick, source)| Op::Reload { slot, pick, source }),
+        3 => (slot(), 0u8..3, prop_oneof![5 => 0u8..6, 1 => Just(6u8), 2 => Just(7u8), 1 => Just(8u8)]).prop_map(|(slot, pick, source)| Op::Reload { slot, pick, source }),
         2 => (slot(), 0u8..3, 0u8..3).prop_map(|(slot, pick, status)| Op::SetStatus { slot, pick, status }),
         1 => Just(Op::Restart),
     ]
